@@ -454,7 +454,7 @@ Lemma rstep_spec st e :
   (rs_rdead st = true -> rs_rdead (fst r) = true) /\
   (PF st -> PF (fst r) /\ out_no_ping (snd r)).
 Proof.
-  intros Hi. cbn zeta. destruct e as [ws|ws s|bs|normal|take| |s]; cbn [rstep].
+  intros Hi. cbn zeta. destruct e as [ws|ws s ce|bs|normal|take| |s ce]; cbn [rstep].
   - (* Batch *)
     pose proof (write_batch_spec ws st Hi) as (B1 & B2 & B3 & B4 & B5 & B6 & B7 & B8 & B9 & B10 & B11 & B12).
     cbn zeta in *. cbn [fst snd accepted_of out_no_block out_no_ping].
@@ -748,7 +748,7 @@ Proof.
     assert (G : forall evs st, Inv st -> rs_pr st <> PDone RBlocked -> rs_pr (fst (rrun st evs)) <> PDone RBlocked).
     { clear. induction evs as [|e evs IH]; intros st Hi P; [exact P|].
       rewrite rrun_cons; cbn [fst]. apply IH; [now destruct (rstep_spec st e Hi)|].
-      destruct e as [ws|ws s|bs|normal|take| |s]; cbn [rstep].
+      destruct e as [ws|ws s ce|bs|normal|take| |s ce]; cbn [rstep].
       - destruct (write_batch_spec ws st Hi) as (_ & _ & _ & _ & _ & _ & _ & _ & _ & _ & B11 & B12). cbn zeta in *; cbn [fst].
         destruct (rs_pr st) eqn:Q.
         + rewrite B11; [congruence | discriminate].
@@ -809,7 +809,7 @@ Qed.
 (* when is the context cancelled: Close, or a failed Write / pong *)
 Definition over_of (eo : rev * rout) : bool :=
   match eo with
-  | (BatchClose _ _, _) | (CloseE _, _) => true
+  | (BatchClose _ _ _, _) | (CloseE _ _, _) => true
   | (_, OBatch rs) => existsb (fun x => match x with WErr => true | _ => false end) rs
   | (_, OPong false) => true
   | _ => false
@@ -828,7 +828,7 @@ Lemma cancel_step st e :
   Inv st ->
   rs_cancel (fst (rstep st e)) = rs_cancel st || over_of (e, snd (rstep st e)) || rx_now st e.
 Proof.
-  intros Hi. destruct e as [ws|ws s|bs|normal|take| |s]; cbn [rstep rx_now]; rewrite ?orb_false_r.
+  intros Hi. destruct e as [ws|ws s ce|bs|normal|take| |s ce]; cbn [rstep rx_now]; rewrite ?orb_false_r.
   + destruct (write_batch_spec ws st Hi) as (_ & _ & _ & _ & _ & _ & _ & B8 & _). cbn zeta in *. cbn [fst snd over_of]. exact B8.
   + destruct (do_close_spec st s Hi) as (_ & _ & _ & _ & D5 & _). cbn zeta in *. cbn [fst snd over_of]. rewrite D5. now rewrite orb_true_r.
   + destruct (reading st) eqn:R; [|cbn; now rewrite orb_false_r].
@@ -852,7 +852,7 @@ Qed.
 
 Lemma rx_now_out st e : rx_now st e = true -> over_of' (e, snd (rstep st e)) = true.
 Proof.
-  destruct e as [ws|ws s|bs|[|]|take| |s]; cbn [rx_now]; try discriminate.
+  destruct e as [ws|ws s ce|bs|[|]|take| |s ce]; cbn [rx_now]; try discriminate.
   intros H. apply andb_true_iff in H as (R & S). apply negb_true_iff in S.
   cbn [rstep]. rewrite R, S. reflexivity.
 Qed.
@@ -1000,7 +1000,7 @@ Lemma step_sim st d e :
   exists d', disc_step d (e, snd (rstep st e)) = Some d' /\ Rel (fst (rstep st e)) d'.
 Proof.
   intros Hi HR. pose proof HR as (R1 & R2 & R3 & R4 & R5). pose proof (Rel_live st d HR) as RL.
-  destruct e as [ws|ws s|bs|normal|take| |s]; cbn [rstep].
+  destruct e as [ws|ws s ce|bs|normal|take| |s ce]; cbn [rstep].
   - (* Batch *)
     destruct (write_batch_spec ws st Hi) as (_ & _ & _ & _ & B5 & _). cbn zeta in B5.
     destruct (batch_sim ws st d Hi HR) as (d' & E & R).
@@ -1083,14 +1083,58 @@ Qed.
 Lemma list_beq_bs_refl (l : list (list N)) : list_beq _ list_N_eqb l l = true.
 Proof. apply list_beq_refl. intros x. apply list_beq_N_eq. reflexivity. Qed.
 
+Lemma closed_over tr : closed_trace tr = true -> existsb over_of tr = true.
+Proof.
+  induction tr as [|[e o] tr IH]; cbn [closed_trace existsb fst]; [discriminate|].
+  intros H. apply orb_true_iff in H as [H|H].
+  - destruct e; try discriminate; reflexivity.
+  - fold (closed_trace tr) in H. rewrite (IH H). apply orb_true_r.
+Qed.
+
+(* Close is final: after any history that contains a Close the context is cancelled, and
+   nothing dials once the context is cancelled *)
+Lemma closed_cancelled c st evs :
+  rc_new c = Some st ->
+  closed_trace (combine evs (snd (rrun st evs))) = true -> rs_cancel (fst (rrun st evs)) = true.
+Proof.
+  intros H CT. destruct (rc_new_spec c st H) as (Hi & _).
+  apply (cancel_run evs st Hi). rewrite (closed_over _ CT). apply orb_true_r.
+Qed.
+
+Lemma no_dial_after_cancel st e :
+  rs_cancel st = true -> n_dials (rs_net (fst (rstep st e))) = n_dials (rs_net st).
+Proof.
+  intros C. destruct e as [ws|ws s ce|bs|normal|take| |s ce]; cbn [rstep].
+  - cbn [fst]. revert st C. induction ws as [|w ws IH]; intros st C; [reflexivity|].
+    cbn [write_batch fst].
+    assert (E : write_one st (snd w) = (st, WErr)) by (unfold write_one; now rewrite C).
+    rewrite E. cbn [fst]. now apply IH.
+  - cbn [fst]. unfold do_close, cancel_st. sw. destruct (rs_pr _); reflexivity.
+  - unfold reading. rewrite C. reflexivity.
+  - unfold reading. rewrite C. reflexivity.
+  - cbn [fst]. unfold read_start. destruct (rs_pr st); [|reflexivity..].
+    destruct (rs_readq st); [destruct (_ || _) | destruct (_ && _)]; reflexivity.
+  - destruct (rs_pr st); reflexivity.
+  - cbn [fst]. unfold do_close, cancel_st. sw. destruct (rs_pr _); reflexivity.
+Qed.
+
+(* cancellation does not depend on what the underlying close returned: the state after Close is
+   the same for both outcomes, only the value handed back differs *)
+Lemma close_outcome_irrelevant st s ce :
+  fst (rstep st (CloseE s ce)) = do_close st s /\ snd (rstep st (CloseE s ce)) = OClose ce /\
+  rs_cancel (fst (rstep st (CloseE s ce))) = true /\
+  (forall ws, fst (rstep st (BatchClose ws s ce)) = do_close st s).
+Proof.
+  repeat split. cbn [rstep fst]. unfold do_close, cancel_st. sw. destruct (rs_pr _); reflexivity.
+Qed.
+
 Lemma model_satisfies_predicate c evs : rc_ok (model_case c evs) = true.
 Proof.
   unfold model_case. destruct (rc_new c) as [st|] eqn:N; [|reflexivity].
-  unfold rc_ok. cbn [rk_new rk_evs rk_outs rk_incs rk_dials rk_cfg negb].
+  unfold rc_ok. cbn [rk_new rk_evs rk_outs rk_incs rk_dials rk_cfg rk_done rk_postclose negb].
   destruct (rc_new_spec c st N) as (Hi & _ & _ & _ & C0 & D0 & Q0 & P0 & _).
   rewrite rrun_length, Nat.eqb_refl. cbn [andb].
-  rewrite (run_dials_ok c st evs N), andb_true_r.
-  apply andb_true_iff; split.
+  apply andb_true_iff; split; [apply andb_true_iff; split; [apply andb_true_iff; split|]|].
   - unfold once_in_order. destruct (_ && _); [|reflexivity].
     assert (E : forall L, map (fun x : inc_o => fst (fst x)) (map inc_obs L) = map i_log L)
       by (intros L; rewrite map_map; apply map_ext; reflexivity).
@@ -1098,6 +1142,9 @@ Proof.
     rewrite filter_memb_self. apply list_beq_bs_refl.
   - apply run_sim; [exact Hi|].
     unfold Rel, disc_init; cbn [d_cz d_q d_pr d_rx d_rn]. rewrite C0, D0, Q0, P0. repeat split; auto; discriminate.
+  - apply (run_dials_ok c st evs N).
+  - destruct (closed_trace _) eqn:CT; [|reflexivity].
+    now rewrite (closed_cancelled c st evs N CT).
 Qed.
 
 (* F33 (fixed in the code, the model follows it): when the READ side exhausted its redial budget
@@ -1175,7 +1222,7 @@ Lemma step_reads st e :
   Inv st ->
   held st ++ taken st e = reads_of [snd (rstep st e)] ++ held (fst (rstep st e)).
 Proof.
-  intros Hi. destruct e as [ws|ws s|bs|normal|take| |s]; cbn [rstep taken].
+  intros Hi. destruct e as [ws|ws s ce|bs|normal|take| |s ce]; cbn [rstep taken].
   - destruct (write_batch_spec ws st Hi) as (_ & _ & _ & _ & _ & _ & _ & _ & B9 & _ & B11 & B12). cbn zeta in *.
     cbn [fst snd reads_of flat_map app]. rewrite app_nil_r. symmetry. apply held_frozen; auto.
     intros P. rewrite (B12 P). now destruct (rs_cancel _).
